@@ -1638,18 +1638,21 @@ impl AsExpandedName for XmlAttr {
     fn as_expanded_name(&self) -> error::Result<Option<ExpandedName>> {
         let local_name = self.attribute.borrow().local_name().to_string();
         let (prefix, ns) = if let Ok(element) = self.attribute.borrow().owner_element() {
-            // TODO: prefix is None
-            let prefix = self
-                .attribute
-                .borrow()
-                .prefix()
-                .unwrap_or("xmlns")
-                .to_string();
-            let namespaces = XmlElement::from(element).in_scope_namespace()?;
-            if let Some(ns) = namespaces.iter().find(|v| v.node_name() == prefix) {
-                (Some(prefix), ns.node_value()?)
+            if let Some(prefix) = self.attribute.borrow().prefix() {
+                let namespaces = XmlElement::from(element).in_scope_namespace()?;
+                if let Some(ns) = namespaces
+                    .iter()
+                    .find(|v| v.namespace.borrow().prefix() == Some(prefix))
+                {
+                    (Some(prefix.to_string()), ns.node_value()?)
+                } else {
+                    (Some(prefix.to_string()), None)
+                }
             } else {
-                (Some(prefix), None)
+                // The default namespace does not apply to attributes: an unprefixed attribute
+                // is in no namespace.
+                // TODO: prefix is None
+                (Some("xmlns".to_string()), None)
             }
         } else {
             (None, None)
